@@ -9,8 +9,8 @@ import (
 	"go/types"
 
 	"gengoverif/checker/internal/cfgx"
-	"golang.org/x/tools/go/cfg"
 	"gengoverif/checker/internal/core"
+	"golang.org/x/tools/go/cfg"
 )
 
 type Property struct {
